@@ -6,6 +6,7 @@
 package main
 
 import (
+	"errors"
 	"bufio"
 	"context"
 	"fmt"
@@ -285,6 +286,9 @@ func execute(c *explore.Chooser, cf cfg, t *explore.T) *explore.Fail {
 		// error must be the context's error. A handshake that failed for a reason of its own
 		// (error response, EOF, malformed answer) keeps that error: the statement's clause is
 		// read as being about failures caused by the context ending (DESIGN C20/O).
+		if out.err == errCause || errors.Is(out.err, errCause) {
+			return explore.Failf("cause-returned-instead-of-context-error:"+cls, "err=%v ctx.Err()=%v\ntrace: %s", out.err, hc.err, tr)
+		}
 		if hc != nil && hc.err != nil && ctxEndedBeforeIOFinished && w.connMade && out.err != hc.err {
 			// (context.DeadlineExceeded itself satisfies net.Error.Timeout: it is what Dial reports
 			// when the dial timeout elapsed first, and is not an untranslated i/o timeout)
